@@ -359,7 +359,7 @@ def main():
 def setup():
     with Lock():
         extract_params()
-        rc, log = lake_build([])
+        rc, log = lake_build(["StarModel", "stardriver", "StarModel.AllProps"])
         if rc != 0:
             print(log[-3000:])
             # keep going: individual checks report their own broken obligations
